@@ -90,7 +90,7 @@ def adequacy(pid: str, ctx, meta) -> list[str]:
     base_bad = {o.key for o in ctx.obs if not o.ok}
     jobs = [(pid, m, base_bad) for m in ms]
     results = []
-    workers = min(16, max(1, len(jobs)))
+    workers = min(int(os.environ.get("MUT_WORKERS", "16")), max(1, len(jobs)))
     with cf.ProcessPoolExecutor(max_workers=workers) as ex:
         for r in ex.map(_run_one, jobs):
             results.append(r)
